@@ -37,7 +37,7 @@ all ≤ the counter -/
 def Desc : List Slot → Nat → Prop
   | [], _ => True
   | .route r :: t, c => r.pos ≤ c ∧ 1 ≤ r.pos ∧ Desc t (r.pos - 1)
-  | .mount _ _ :: _, _ => False
+  | .mount _ _ _ :: _, _ => False
 
 theorem Desc.mono {l : List Slot} {c c' : Nat} (h : Desc l c) (hc : c ≤ c') : Desc l c' := by
   cases l with
@@ -45,14 +45,14 @@ theorem Desc.mono {l : List Slot} {c c' : Nat} (h : Desc l c) (hc : c ≤ c') : 
   | cons s t =>
     cases s with
     | route r => exact ⟨by have := h.1; omega, h.2.1, h.2.2⟩
-    | mount _ _ => exact h.elim
+    | mount _ _ _ => exact h.elim
 
 theorem desc_pushRoute {l : List Slot} {c : Nat} (r : Route) (h : Desc l c) :
     Desc (pushRoute l r c).1 (pushRoute l r c).2 ∧ c ≤ (pushRoute l r c).2 := by
   unfold pushRoute
   split
   · rename_i p t
-    by_cases hm : p.raw = r.raw ∧ p.use = r.use
+    by_cases hm : p.raw = r.raw ∧ (p.orig == []) = (r.orig == []) ∧ p.use = r.use
     · rw [if_pos hm]; exact ⟨h, Nat.le_refl _⟩
     · rw [if_neg hm]
       refine ⟨⟨Nat.le_refl _, by simp, ?_⟩, by simp⟩
@@ -108,7 +108,7 @@ theorem desc_splice_sorted (cfg : Cfg) (po : Bytes → List Bytes) (k : Nat) {l 
   | nil => simp [posSorted, splice]
   | cons s t ih =>
     cases s with
-    | mount _ _ => exact h.elim
+    | mount _ _ _ => exact h.elim
     | route x =>
       obtain ⟨h1, h2, h3⟩ := h
       obtain ⟨ihs, ihb⟩ := ih h3
@@ -197,7 +197,7 @@ end
 /-! ### the chain a table runs -/
 
 section
-variable {V : Type} (mt : Bool → Bytes → Bytes → List Bytes → Option V) (stops : Nat → Bool)
+variable {V : Type} (mt : Bool → Bytes → Bytes → Bytes → List Bytes → Option V) (stops : Nat → Bool)
 
 /-- `Ctx.Next` inside a matched route: the remaining handlers of the route, then on to the stack;
 a handler that does not call Next ends the chain (ctx.go `Next`, router.go `next`) -/
@@ -210,7 +210,7 @@ what `Route.match` computes from the fields it reads (for one fixed request) -/
 def run : List Route → List (Nat × V)
   | [] => []
   | r :: rs =>
-    match mt r.use r.pretty r.path r.params with
+    match mt r.use r.pretty r.written r.path r.params with
     | none => run rs
     | some v => runH stops v r.handlers (run rs)
 
@@ -218,20 +218,20 @@ def run : List Route → List (Nat × V)
 def runE : List Obs → List (Nat × V)
   | [] => []
   | e :: es =>
-    match mt e.use e.pretty e.path e.params with
+    match mt e.use e.pretty e.written e.path e.params with
     | none => runE es
     | some v => (e.hid, v) :: if stops e.hid then [] else runE es
 
 theorem runE_route_none (r : Route) (hs : List Nat) (es : List Obs)
-    (h : mt r.use r.pretty r.path r.params = none) :
-    runE mt stops (hs.map (fun x => (⟨r.use, r.pretty, r.path, r.params, x⟩ : Obs)) ++ es) = runE mt stops es := by
+    (h : mt r.use r.pretty r.written r.path r.params = none) :
+    runE mt stops (hs.map (fun x => (⟨r.use, r.pretty, r.written, r.path, r.params, x⟩ : Obs)) ++ es) = runE mt stops es := by
   induction hs with
   | nil => rfl
   | cons x t ih => simp only [List.map_cons, List.cons_append, runE, h]; exact ih
 
 theorem runE_route_some (r : Route) (v : V) (hs : List Nat) (es : List Obs) (hne : hs ≠ [])
-    (h : mt r.use r.pretty r.path r.params = some v) :
-    runE mt stops (hs.map (fun x => (⟨r.use, r.pretty, r.path, r.params, x⟩ : Obs)) ++ es)
+    (h : mt r.use r.pretty r.written r.path r.params = some v) :
+    runE mt stops (hs.map (fun x => (⟨r.use, r.pretty, r.written, r.path, r.params, x⟩ : Obs)) ++ es)
       = runH stops v hs (runE mt stops es) := by
   induction hs with
   | nil => exact absurd rfl hne
@@ -250,11 +250,11 @@ theorem run_eq_runE (l : List Route) (hne : ∀ r ∈ l, r.handlers ≠ []) :
   | cons r rs ih =>
     have ih' := ih (fun x hx => hne x (List.mem_cons_of_mem _ hx))
     have he : expandObs (r :: rs) =
-        r.handlers.map (fun x => (⟨r.use, r.pretty, r.path, r.params, x⟩ : Obs)) ++ expandObs rs := by
+        r.handlers.map (fun x => (⟨r.use, r.pretty, r.written, r.path, r.params, x⟩ : Obs)) ++ expandObs rs := by
       simp [expandObs]
     rw [he]
     simp only [run]
-    cases hm : mt r.use r.pretty r.path r.params with
+    cases hm : mt r.use r.pretty r.written r.path r.params with
     | none => rw [runE_route_none mt stops r _ _ hm]; exact ih'
     | some v => rw [runE_route_some mt stops r v _ _ (hne r (by simp)) hm, ih']
 
@@ -277,7 +277,7 @@ end
 
 def SlotsNE (l : List Slot) : Prop :=
   (∀ r, Slot.route r ∈ l → r.handlers ≠ []) ∧
-  (∀ raw sub, Slot.mount raw sub ∈ l → ∀ k, ∀ r ∈ sub k, r.handlers ≠ [])
+  (∀ raw pre sub, Slot.mount raw pre sub ∈ l → ∀ k, ∀ r ∈ sub k, r.handlers ≠ [])
 
 def StNE (st : St) : Prop := ∀ k, SlotsNE (st.stacks k)
 
@@ -286,7 +286,7 @@ theorem slotsNE_pushRoute {l : List Slot} {r : Route} (c : Nat) (hl : SlotsNE l)
   unfold pushRoute
   split
   · rename_i p t
-    by_cases h : p.raw = r.raw ∧ p.use = r.use
+    by_cases h : p.raw = r.raw ∧ (p.orig == []) = (r.orig == []) ∧ p.use = r.use
     · rw [if_pos h]
       constructor
       · intro x hx
@@ -295,29 +295,29 @@ theorem slotsNE_pushRoute {l : List Slot} {r : Route} (c : Nat) (hl : SlotsNE l)
           intro e
           exact hr (List.append_eq_nil_iff.mp e).2
         · exact hl.1 x (List.mem_cons_of_mem _ hx)
-      · intro raw sub hx
+      · intro raw pre sub hx
         rcases List.mem_cons.mp hx with hx | hx
         · cases hx
-        · exact hl.2 raw sub (List.mem_cons_of_mem _ hx)
+        · exact hl.2 raw pre sub (List.mem_cons_of_mem _ hx)
     · rw [if_neg h]
       constructor
       · intro x hx
         rcases List.mem_cons.mp hx with hx | hx
         · injection hx with hx; subst hx; exact hr
         · exact hl.1 x hx
-      · intro raw sub hx
+      · intro raw pre sub hx
         rcases List.mem_cons.mp hx with hx | hx
         · cases hx
-        · exact hl.2 raw sub hx
+        · exact hl.2 raw pre sub hx
   · constructor
     · intro x hx
       rcases List.mem_cons.mp hx with hx | hx
       · injection hx with hx; subst hx; exact hr
       · exact hl.1 x hx
-    · intro raw sub hx
+    · intro raw pre sub hx
       rcases List.mem_cons.mp hx with hx | hx
       · cases hx
-      · exact hl.2 raw sub hx
+      · exact hl.2 raw pre sub hx
 
 theorem stNE_addRoute (m : Nat) {r : Route} {st : St} (hs : StNE st) (hr : r.handlers ≠ []) :
     StNE (addRoute m r st) := by
@@ -333,9 +333,9 @@ theorem stNE_regMany (ms : List Nat) {r : Route} {st : St} (hs : StNE st) (hr : 
   | nil => exact hs
   | cons m ms ih => exact ih (stNE_addRoute m hs hr)
 
-theorem stNE_foldl_addMount (ms : List Nat) (raw : Bytes) (sub : Nat → List Route) {st : St}
+theorem stNE_foldl_addMount (ms : List Nat) (raw pre : Bytes) (sub : Nat → List Route) {st : St}
     (hs : StNE st) (hsub : ∀ k, ∀ r ∈ sub k, r.handlers ≠ []) :
-    StNE (ms.foldl (fun st m => addMount m raw sub st) st) := by
+    StNE (ms.foldl (fun st m => addMount m raw pre sub st) st) := by
   induction ms generalizing st with
   | nil => exact hs
   | cons m ms ih =>
@@ -350,10 +350,10 @@ theorem stNE_foldl_addMount (ms : List Nat) (raw : Bytes) (sub : Nat → List Ro
         rcases List.mem_cons.mp hx with hx | hx
         · cases hx
         · exact (hs k).1 x hx
-      · intro raw' sub' hx
+      · intro raw' pre' sub' hx
         rcases List.mem_cons.mp hx with hx | hx
-        · injection hx with h1 h2; subst h2; exact hsub
-        · exact (hs k).2 raw' sub' hx
+        · injection hx with h1 h2 h3; subst h3; exact hsub
+        · exact (hs k).2 raw' pre' sub' hx
     · simp only [h, if_false]; exact hs k
 
 theorem ne_splice (cfg : Cfg) (po : Bytes → List Bytes) (k : Nat) {l : List Slot} (h : SlotsNE l) :
@@ -362,7 +362,7 @@ theorem ne_splice (cfg : Cfg) (po : Bytes → List Bytes) (k : Nat) {l : List Sl
   | nil => intro r hr; cases hr
   | cons s t ih =>
     have ht : SlotsNE t := ⟨fun r hr => h.1 r (List.mem_cons_of_mem _ hr),
-      fun raw sub hr => h.2 raw sub (List.mem_cons_of_mem _ hr)⟩
+      fun raw pre sub hr => h.2 raw pre sub (List.mem_cons_of_mem _ hr)⟩
     cases s with
     | route x =>
       intro r hr
@@ -370,11 +370,11 @@ theorem ne_splice (cfg : Cfg) (po : Bytes → List Bytes) (k : Nat) {l : List Sl
       rcases List.mem_cons.mp hr with rfl | hr
       · exact h.1 r (by simp)
       · exact ih ht r hr
-    | mount raw sub =>
+    | mount raw pre sub =>
       intro r hr
       simp only [splice, List.mem_append, List.mem_map] at hr
       rcases hr with ⟨x, hx, rfl⟩ | hr
-      · exact h.2 raw sub (by simp) k x hx
+      · exact h.2 raw pre sub (by simp) k x hx
       · exact ih ht r hr
 
 theorem ne_renum (c : Nat) {l : List Route} (h : ∀ r ∈ l, r.handlers ≠ []) :
@@ -391,7 +391,7 @@ theorem ne_renum (c : Nat) {l : List Route} (h : ∀ r ∈ l, r.handlers ≠ [])
 theorem ne_finish (cfg : Cfg) (po : Bytes → List Bytes) {st : St} (h : StNE st) (k : Nat) :
     ∀ r ∈ finish cfg po st k, r.handlers ≠ [] := by
   have hsl : SlotsNE (st.stacks k).reverse :=
-    ⟨fun r hr => (h k).1 r (List.mem_reverse.mp hr), fun raw sub hr => (h k).2 raw sub (List.mem_reverse.mp hr)⟩
+    ⟨fun r hr => (h k).1 r (List.mem_reverse.mp hr), fun raw pre sub hr => (h k).2 raw pre sub (List.mem_reverse.mp hr)⟩
   unfold finish
   by_cases hm : st.mounted = true
   · simp only [hm, if_true]; exact ne_renum _ (ne_splice cfg po k hsl)
@@ -401,7 +401,7 @@ theorem stNE_init : StNE St.init := by
   intro k
   constructor
   · intro r h; cases h
-  · intro raw sub h; cases h
+  · intro raw pre sub h; cases h
 
 mutual
 theorem stNE_buildItem (cfg : Cfg) (po : Bytes → List Bytes) (c : Option Bytes) :
@@ -427,7 +427,7 @@ theorem stNE_buildItem (cfg : Cfg) (po : Bytes → List Bytes) (c : Option Bytes
     simp only [buildItem]
     simp only [wfItem] at hw
     intro k
-    exact stNE_foldl_addMount allMethods _ _ h
+    exact stNE_foldl_addMount allMethods _ _ _ h
       (ne_finish scfg po (stNE_buildItems scfg po none sub St.init hw stNE_init)) k
 theorem stNE_buildItems (cfg : Cfg) (po : Bytes → List Bytes) (c : Option Bytes) :
     ∀ (is : List Item) (st : St), wfItems is = true → StNE st → StNE (buildItems cfg po c is st)
